@@ -447,7 +447,20 @@ def reach_lr_type(i: int, j: int) -> int:
 # that call structure on the real write_logical_records for symbolic segment counts and sizes, with recording stubs at
 # the three seams whose own contracts are O1.1 (segmenter), O1.2 (wrapper, real here) and O10.1 (buffer step).
 
-class RecLRB:
+from vf.stubs.memio import StubGap  # noqa: E402
+
+
+class _Recording:
+    """Recording stand-ins know only the seam they record; anything else the code under analysis asks of them is a
+    stub gap (the obligation becomes inconclusive), never an AttributeError that looks like a counterexample."""
+
+    def __getattr__(self, name):
+        if name.startswith('__'):
+            raise AttributeError(name)
+        raise StubGap(f'{type(self).__name__}.{name} is not part of the recorded seam')
+
+
+class RecLRB(_Recording):
     def __init__(self, name, sizes, log):
         self.name, self.sizes, self.log = name, sizes, log
 
@@ -460,7 +473,7 @@ class RecLRB:
             i = i + 1
 
 
-class RecRecord:
+class RecRecord(_Recording):
     def __init__(self, name, sizes, log):
         self.name, self.sizes, self.log = name, sizes, log
 
@@ -469,7 +482,7 @@ class RecRecord:
         return RecLRB(self.name, self.sizes, self.log)
 
 
-class RecOutput:
+class RecOutput(_Recording):
     instances = []
 
     def __init__(self, size, writer):
